@@ -103,6 +103,18 @@ def _scene(d, kind):
         case.y, case.labels = y, labels
         case.meta['protos'] = p
     case.init = blurred(case.labels, K, beta)
+    # rarely used options must not disturb the fixed point
+    if kind in ('vmfmm', 'vmfcacgmm') and d.bool():
+        case.opts['max_concentration'] = d.choice([500, 1000, 5000, 200])
+        case.opts['min_concentration'] = d.choice([1e-10, 1e-3])
+    if kind == 'cwmm' and d.bool():
+        case.trainer_kwargs['max_concentration'] = d.choice([500, 200, 700])
+    if kind in ('cacgmm', 'gcacgmm', 'vmfcacgmm') and d.bool():
+        case.opts['covariance_norm'] = d.choice(['eigenvalue', 'trace', False])
+        case.opts['eigenvalue_floor'] = d.choice([1e-10, 1e-6])
+    if kind in ('gmm', 'gcacgmm') and d.bool():
+        case.opts['covariance_type'] = d.choice(['full', 'diagonal', 'spherical'])
+    case.meta['opts'] = {**case.opts, **case.trainer_kwargs}
     return case
 
 
@@ -111,7 +123,8 @@ def _check(d, ctx, kind):
     K = case.K
     ctx.describe(kind=kind, K=K, D=case.D, N=case.N, lead=case.lead,
                  eps=case.meta['eps'], beta=case.meta['beta'],
-                 iterations=case.iterations, gain_span=case.meta['gain_span'])
+                 iterations=case.iterations, gain_span=case.meta['gain_span'],
+                 options=case.meta.get('opts'))
     ctx.label(kind, f'gain_span={case.meta["gain_span"]}', f'K={K}', f'iter={case.iterations}',
               'blur' if case.meta['beta'] >= 0.1 else 'sharp')
     model = ctx.lib(mm.fit, case)
